@@ -25,6 +25,7 @@ type Fate struct {
 	Copies int           // extra duplicates (0 = deliver once)
 	Delay  time.Duration // base one-way latency
 	Jitter time.Duration // each copy gets Delay + [0,Jitter)
+	Late   time.Duration // > 0: one more copy is delivered this much later (a stale duplicate)
 }
 
 // PacketEvent is one datagram as handed to the innermost transport.
@@ -313,6 +314,9 @@ func (e *Endpoint) WriteToAddress(b []byte, a memberlist.Address) (time.Time, er
 			d += time.Duration(n.Intn(int(fate.Jitter)))
 		}
 		n.schedule(dst, ev, d)
+	}
+	if fate.Late > 0 {
+		n.schedule(dst, ev, fate.Delay+fate.Late)
 	}
 	return now, nil
 }
